@@ -115,6 +115,7 @@ pub fn op<K: Raw>(op: &str, a: &[&str]) -> String {
         "kmersb" => show_list(&K::kmers_from_bytes(&digits(a[0]))),
         "kmersa" => show_list(&K::kmers_from_ascii(a[0].as_bytes())),
         "extend" => show_k(&k(0).extend(n(1) as u8, if a[2] == "R" { Dir::Right } else { Dir::Left })),
+        "getexts" => show_list(&k(0).get_extensions(debruijn::Exts::new(u8::from_str_radix(a[1], 16).unwrap()), if a[2] == "R" { Dir::Right } else { Dir::Left })),
         "hd1" => show_list(&debruijn::neighbors::KmerOneHammingIter::new(k(0)).collect::<Vec<K>>()),
         _ => panic!("bad op"),
     }
@@ -173,7 +174,7 @@ fn ascii_noise(rng: &mut Rng, len: usize) -> String {
 
 pub fn gen_for(rng: &mut Rng, name: &str, k: usize, raw: u128) -> String {
     let ops = ["get", "set", "setslice", "extl", "extr", "rc", "tou64", "fromu64", "ham", "at", "gc", "tostr", "frombytes",
-               "fromascii", "minrc", "cmp", "kmersb", "kmersa", "setslice", "extr", "rc", "hd1"];
+               "fromascii", "minrc", "cmp", "kmersb", "kmersa", "setslice", "extr", "rc", "hd1", "getexts"];
     let op = *rng.pick(&ops);
     let other = bases_to_raw(&random_kmer_bases(rng, k));
     let args = match op {
@@ -187,6 +188,7 @@ pub fn gen_for(rng: &mut Rng, name: &str, k: usize, raw: u128) -> String {
             format!("{:x} {} {} {:x}", raw, pos, n, v)
         }
         "extl" | "extr" => format!("{:x} {}", raw, rng.below(4)),
+        "getexts" => format!("{:x} {:02x} {}", raw, rng.below(256), if rng.chance(1, 2) { "L" } else { "R" }),
         "rc" | "at" | "gc" | "tostr" | "minrc" | "hd1" => format!("{:x}", raw),
         "tou64" => {
             if k > 32 { format!("{:x}", raw & 0xffff_ffff_ffff_ffff) } else { format!("{:x}", raw) }
